@@ -10,6 +10,8 @@ HERE="$(cd "$(dirname "$0")/.." && pwd)"
 WT=${SEED_WT:-/var/tmp/wt-seedtest-$$}
 git -C /repo worktree remove --force "$WT" 2>/dev/null
 git -C /repo worktree add -f "$WT" HEAD >/dev/null 2>&1 || exit 2
+# the check regenerates lean/PyaModel/Generated/*.lean from the tree it is pointed at: keep the clean tree's files
+GENBAK="$WT.generated"; rm -rf "$GENBAK"; cp -a "$HERE/lean/PyaModel/Generated" "$GENBAK"
 for id in "$@"; do
   d="$HERE/seeded/$id"; prop=${id%%-*}
   git -C "$WT" checkout -q -- . ; git -C "$WT" clean -fdq
@@ -39,4 +41,5 @@ m["verif_result"] = dict(m.get("verif_result") or {}, status_latest=st)
 json.dump(m, open(p, "w"), indent=1)
 PY
 done
+rm -rf "$HERE/lean/PyaModel/Generated"; mv "$GENBAK" "$HERE/lean/PyaModel/Generated"
 cd /; git -C /repo worktree remove --force "$WT"
